@@ -23,7 +23,7 @@ import time
 VERIF = os.path.dirname(os.path.dirname(os.path.abspath(__file__)))
 HARNESS = os.path.join(VERIF, "harness")
 WORK = os.path.join(VERIF, ".work")
-REPO = "/repo"
+REPO = os.environ.get("VERIF_REPO", "/repo")  # another tree only for sensitivity experiments (tools/altcheck.sh)
 KNOWN = os.path.join(VERIF, "known_findings.json")
 
 sys.path.insert(0, os.path.dirname(os.path.abspath(__file__)))
@@ -39,6 +39,7 @@ def goenv():
     env.update({
         "GOFLAGS": "-mod=mod", "GOPROXY": "off", "GOSUMDB": "off", "GOTOOLCHAIN": "local",
         "CGO_ENABLED": env.get("CGO_ENABLED", "1"),
+        "VERIF_WORK": WORK, "VERIF_HARNESS": HARNESS, "VERIF_REPO": REPO,
     })
     return env
 
